@@ -22,7 +22,7 @@ from . import common
 
 ID = 'C17'
 LEVEL = 'exploration'
-RUNS = {'quick': 10000, 'thorough': 250000}
+RUNS = {'quick': 60000, 'thorough': 400000}
 SIM_TIME_UNIT = 'API calls'
 RULE = ('seeded generation of (monitor kind, pastify or not, specification inside the supported fragment or with one injected '
         'unsupported construct, degenerate data shape); non-trivial = an unsupported construct was rejected, or a supported run '
